@@ -55,6 +55,9 @@ type BlockResult struct {
 	Block    *pb.Block          // as announced by the executor (roots, parent hash and hash filled in)
 	Receipts []*pb.Receipt      // in block order, read back from the block file
 	Meta     *pb.InterchainMeta // ledger.GetInterchainMeta(height)
+	// EventMeta is the interchain meta announced in the executor's ExecutedEvent (nil for GetBlockResult),
+	// as opposed to Meta which is read back from the ledger.
+	EventMeta *pb.InterchainMeta
 }
 
 // Node is a bitxhub node core without consensus.
@@ -259,10 +262,19 @@ func BlockTime(h uint64) int64 { return BaseTime + int64(h)*int64(time.Second) }
 // ExecBlock submits block Height()+1 and returns once it is executed AND persisted. timestamp 0 means
 // BlockTime(height). local[i]==true skips the signature check of tx i (as for API-received txs).
 func (n *Node) ExecBlock(txs []pb.Transaction, local []bool, timestamp int64) (*BlockResult, error) {
+	return n.ExecBlockAt(n.Height()+1, txs, local, timestamp)
+}
+
+// ExecBlockAt is ExecBlock with an explicit block number. number <= Height() drives the executor's own
+// rollback path (handle.go rollbackBlocks: the ledger is rolled back to number-1, then the block is
+// executed). The caller guarantees 2 <= number <= Height()+1 and number-1 inside the journal window
+// (the last 10 blocks), otherwise the executor panics. After a rollback the harness-side nonce
+// counters are re-initialised from the ledger.
+func (n *Node) ExecBlockAt(number uint64, txs []pb.Transaction, local []bool, timestamp int64) (*BlockResult, error) {
 	if n.closed {
 		return nil, fmt.Errorf("node closed")
 	}
-	h := n.Height() + 1
+	h, before := number, n.Height()
 	if timestamp == 0 {
 		timestamp = BlockTime(h)
 	}
@@ -270,6 +282,7 @@ func (n *Node) ExecBlock(txs []pb.Transaction, local []bool, timestamp int64) (*
 		BlockHeader:  &pb.BlockHeader{Number: h, Timestamp: timestamp},
 		Transactions: &pb.Transactions{Transactions: txs},
 	}
+	n.drain() // stale events (e.g. of a wedged earlier call) must not be mistaken for this block's
 	n.Exec.ExecuteBlock(&pb.CommitEvent{Block: block, LocalList: local})
 
 	// The executor persists synchronously and only then posts the block event, then the logs event,
@@ -281,7 +294,7 @@ func (n *Node) ExecBlock(txs []pb.Transaction, local []bool, timestamp int64) (*
 	for ev == nil || !gotLogs {
 		select {
 		case e := <-n.blockCh:
-			if e.Block.BlockHeader.Number == h {
+			if e.Block == block { // the executor announces the very object we submitted
 				ev = &e
 			}
 		case <-n.logsCh:
@@ -297,7 +310,26 @@ func (n *Node) ExecBlock(txs []pb.Transaction, local []bool, timestamp int64) (*
 		case <-time.After(time.Millisecond):
 		}
 	}
-	return n.blockResult(ev.Block)
+	if h <= before {
+		n.nonces = map[string]uint64{}
+	}
+	res, err := n.blockResult(ev.Block)
+	if res != nil {
+		res.EventMeta = ev.InterchainMeta
+	}
+	return res, err
+}
+
+// drain empties the event channels without blocking.
+func (n *Node) drain() {
+	for {
+		select {
+		case <-n.blockCh:
+		case <-n.logsCh:
+		default:
+			return
+		}
+	}
 }
 
 func (n *Node) blockResult(block *pb.Block) (*BlockResult, error) {
